@@ -37,16 +37,25 @@ func scanRoot(st lib.StoreI) ([]byte, int, error) {
 	return r, cnt, nil
 }
 
-// RunStore drives random block histories through the real Store.
-func RunStore(o *drv.Out) {
-	r := o.Rng
-	thorough := o.Tier == "thorough"
-	u := NewUniverse(160, thorough)
-	cases, blocks, maxBig := 14, 6, 500
+// storeParams: cases, blocks per case, largest block.
+func storeParams(thorough bool) (cases, blocks, maxBig int) {
 	if thorough {
-		cases, blocks, maxBig = 24, 8, 2500
+		return 24, 8, 2500
 	}
-	for ci := 0; ci < cases; ci++ {
+	return 14, 6, 500
+}
+
+// runStoreCase drives one random block history through the real Store. Every call into the real code of this
+// case is under the recover below (see runSMTCase).
+func runStoreCase(o *emitter, u *Universe, ci, blocks, maxBig int) {
+	r := o.Rng
+	var hist []string
+	defer func() {
+		if p := recover(); p != nil {
+			o.Fail("C08:panic-in-real-code", fmt.Sprintf("store: %v | %s", p, shortStack()), hist)
+		}
+	}()
+	{
 		sti, err := store.NewStoreInMemory(lib.NewNullLogger())
 		if err != nil {
 			panic(err)
@@ -54,7 +63,6 @@ func RunStore(o *drv.Out) {
 		st := sti.(*store.Store)
 		o.Case(fmt.Sprintf("store #%d", ci))
 		o.Op("store", "ok")
-		var hist []string
 		rec := func(op, res string) {
 			hist = append(hist, op)
 			o.Op(op, res)
@@ -179,6 +187,8 @@ func RunStore(o *drv.Out) {
 				dirtyAfterRoot = dirtyAfterRoot || rootCached
 				// speculative root in the middle of a block
 				if r.Intn(60) == 0 {
+					o.Try("root")
+					o.Try("root")
 					got, e := st.Root()
 					if e != nil {
 						panic(e)
@@ -201,6 +211,7 @@ func RunStore(o *drv.Out) {
 				}
 			}
 			if r.Intn(3) == 0 {
+				o.Try("root")
 				got, e := st.Root()
 				if e != nil {
 					panic(e)
@@ -209,6 +220,7 @@ func RunStore(o *drv.Out) {
 				checkRoot(got, "Root() before Commit()", dirtyAfterRoot)
 				rootCached = true
 			}
+			o.Try("commit")
 			got, e := st.Commit()
 			if e != nil {
 				panic(e)
